@@ -267,6 +267,16 @@ def run(fx, rep, tier):
         from . import c15
         rep.rule("C14-R5", "every kind of session serves a fully built index (path summary of Db::open_inner shared with C15-R6)")
         c15.r6_session(facts, rep, rule="C14-R5")
+        rep.rule("C14-R7", "a re-opened on-disk index is a complete index of this build's data: the marker never outlives the "
+                           "index it describes, an index is trusted only behind version equality, and the hash that is compared "
+                           "covers every asset (shared with C15-R3, C15-R4, C15-R7)")
+        s7 = type(rep)(rep.prop, rep.tier)
+        c15.r3_invalidate_before_destroy(facts, s7)
+        c15.r4_trust_conditions(facts, s7)
+        c15.r7_hash_covers(facts, s7, rule="C14-R7")
+        for o in s7.obls:
+            o["rule"] = "C14-R7"
+            rep.obls.append(o)
     if "rel" in fx:
         # flow rules re-evaluated on the release-like MIR
         sub = type(rep)(rep.prop, rep.tier)
